@@ -368,7 +368,7 @@ def EncodeTargetReadyMessage : List String := [
   "return []byte(fmt.Sprintf(\"%s|%s\", tunnelID, targetNodeID))"
 ]
 def DecodeTargetReadyMessage : List String := [
-  "s := strings.TrimSpace(string(data))",
+  "s := string(data)",
   "for i := len(s) - 1; i >= 0; i--",
   "if s[i] == '|'",
   "tunnelID = s[:i]",
